@@ -1,4 +1,5 @@
 import Psa.EvalProofs
+import Psa.C03Relax
 import Psa.Examples
 /-! # C03 — restricted ⇒ baseline ⇒ privileged, at every version -/
 namespace PSA.Props
@@ -14,6 +15,29 @@ theorem C03_order (v : Ver) (p : Pod) (hv : v.requestable) (hp : ApiValid p)
   rw [evalPodModel_allowed] at h ⊢
   exact PSA.C03_order _ C03_tables_ok v p hv ((apiValid_tables _ C03_windows_name p).mp hp) h
 
+/-- the same with the user-namespace switch (C19) in either position: none of the override edges reads it -/
+theorem C03_order_any_switch (relax : Bool) (v : Ver) (p : Pod) (hv : v.requestable) (hp : ApiValid p)
+    (h : (aggregate (evalPodModel Generated.tables relax ⟨.restricted, v⟩ p)).allowed = true) :
+    (aggregate (evalPodModel Generated.tables relax ⟨.baseline, v⟩ p)).allowed = true := by
+  rw [evalPodModel_allowed] at h ⊢
+  exact PSA.C03_order_any_switch _ C03_tables_ok relax v p hv ((apiValid_tables _ C03_windows_name p).mp hp) h
+
+/-- "relaxing a namespace's level at an unchanged version can never make an existing pod newly non-compliant": for any two
+    levels of which the second is no stricter than the first (`CompareLevels l₂ l₁ ≤ 0`), at one version and one switch
+    setting, a pod allowed at the first is allowed at the second -/
+theorem C03_relaxing_level (relax : Bool) (l₁ l₂ : Level) (v : Ver) (p : Pod) (hv : v.requestable) (hp : ApiValid p)
+    (hl : compareLevels l₂ l₁ ≤ 0)
+    (h : (aggregate (evalPodModel Generated.tables relax ⟨l₁, v⟩ p)).allowed = true) :
+    (aggregate (evalPodModel Generated.tables relax ⟨l₂, v⟩ p)).allowed = true := by
+  have priv : (aggregate (evalPodModel Generated.tables relax ⟨.privileged, v⟩ p)).allowed = true := by
+    have : evalPodModel Generated.tables relax ⟨.privileged, v⟩ p = [] := by simp [evalPodModel, Registry.evaluate]
+    rw [this]; decide
+  cases l₁ <;> cases l₂ <;> first
+    | exact h
+    | exact priv
+    | exact C03_order_any_switch relax v p hv hp h
+    | (simp [compareLevels] at hl)
+
 /-- every pod is allowed at privileged: nothing runs -/
 theorem C03_privileged (relax : Bool) (v : Ver) (p : Pod) :
     evalPodModel Generated.tables relax ⟨.privileged, v⟩ p = [] ∧
@@ -26,7 +50,18 @@ example : ApiValid Ex.compliantPod ∧ (aggregate (evalPodModel Generated.tables
     (aggregate (evalPodModel Generated.tables false ⟨.baseline, .latest⟩ Ex.plainPod.pod)).allowed = true ∧
     (aggregate (evalPodModel Generated.tables false ⟨.restricted, .latest⟩ Ex.plainPod.pod)).allowed = false := by decide +kernel
 
+/-- non-vacuity with the switch on: a pod in a user namespace that runs as root is allowed at restricted only because of the
+    switch — and then at baseline too -/
+example :
+    let p : Pod := { hostUsers := some false,
+                     containers := [{ name := b!"c", sc := some { Ex.compliantSC with runAsNonRoot := none, runAsUser := some 0 } }] }
+    ApiValid p ∧ (aggregate (evalPodModel Generated.tables true ⟨.restricted, .latest⟩ p)).allowed = true ∧
+    (aggregate (evalPodModel Generated.tables false ⟨.restricted, .latest⟩ p)).allowed = false ∧
+    (aggregate (evalPodModel Generated.tables true ⟨.baseline, .latest⟩ p)).allowed = true := by decide +kernel
+
 #print axioms C03_tables_ok
 #print axioms C03_order
+#print axioms C03_order_any_switch
+#print axioms C03_relaxing_level
 #print axioms C03_privileged
 end PSA.Props
